@@ -84,7 +84,9 @@ type PathFault struct {
 	Arg   int
 	Errno syscall.Errno
 	After int
-	seen  int
+	// Prefix makes Path match every path that starts with it.
+	Prefix bool
+	seen   int
 }
 
 // IOCall is one entry of the I/O log.
@@ -286,12 +288,13 @@ func (kk *kernel) enter(op int, path string, n int) decision {
 	}
 	for i := 0; i < kk.npathFaults; i++ {
 		pf := &kk.pathFaults[i]
-		if d.kind == FNone && pf.Op == op && pf.Path == path && (pf.After <= 0 || pf.seen >= pf.After) {
+		match := pf.Op == op && (pf.Path == path || (pf.Prefix && len(path) >= len(pf.Path) && path[:len(pf.Path)] == pf.Path))
+		if d.kind == FNone && match && (pf.After <= 0 || pf.seen >= pf.After) {
 			d.kind = pf.Kind
 			d.arg = pf.Arg
 			d.errno = pf.Errno
 		}
-		if pf.Op == op && pf.Path == path {
+		if match {
 			pf.seen++
 		}
 	}
